@@ -30,7 +30,7 @@ def required(tier):
     b.update({f'bp:{k}': 2 for k in work_sig.BP_KINDS})
     b.update({f'bound:{k}': 2 for k in set(work_sig.BOUND_KINDS)})
     b.update({'bounding-range-form:' + k: 30 for k in ('plain-tuple', 'Hz', 'kHz', 'MHz', 'GHz-list', 'plain-list')})
-    b.update({'df:negative-argument': 50, 'geometry:python-integers': 30, 'orient:asc': 10, 'orient:desc': 10, 'array-path-with-smearing': 2, 'validation-probe': 10,
+    b.update({'frame:float32-storage': 100, 'frame:gap-in-time-axis': 40, 'df:negative-argument': 50, 'geometry:python-integers': 30, 'orient:asc': 10, 'orient:desc': 10, 'array-path-with-smearing': 2, 'validation-probe': 10,
               'bp-array:restricted-grid-length-equals-fchans': 10})
     return {'buckets': b, 'counters': {'pixels_compared': 10000, 'add_signal_calls': 100}, 'checks': 300, 'nontrivial': 50}
 
@@ -61,8 +61,13 @@ def gen_cases(seed, tier):
             spec['path']['f_start'] = fmin + (a0 + nb / 2 + float(rng.uniform(-1, 1))) * g['df']
             if spec['path']['kind'] in ('constant', 'squared', 'sine', 'rfi'):
                 spec['path']['drift'] = float(rng.normal()) * 0.2 * g['df'] / g['dt']
-        cases.append(dict(geom=g, spec=spec, opts=opts, bound_kind=bk, brange=brange,
-                          sub=int(rng.integers(2 ** 31))))
+        # frame variants: single-precision storage (every frame loaded from a file is float32); a time axis with a gap in it (a
+        # consolidated cadence) -- only where nothing is integrated over time, the one reading of "t_i" that is unambiguous there
+        variant = common.stratum(i, 43, ['plain', 'plain', 'plain', 'float32-storage', 'gap-in-time-axis'])
+        if variant == 'gap-in-time-axis' and (opts['integrate_path'] or opts['integrate_t_profile'] or g['tchans'] < 2 or g.get('int_geom')):
+            variant = 'plain'
+        cases.append(dict(geom=g, spec=spec, opts=opts, bound_kind=bk, brange=brange, variant=variant,
+                          gap=float(common.pick(rng, [900.0, 37.5, 1.0e4])), sub=int(rng.integers(2 ** 31))))
     return cases
 
 
@@ -131,6 +136,14 @@ def run_case(c, R):
     g, spec, opts = c['geom'], c['spec'], c['opts']
     rng = np.random.default_rng(c['sub'])
     fr = make_frame(stg, g, seed=c['sub'])
+    variant = c.get('variant', 'plain')
+    R.bucket('frame:' + variant)
+    if variant == 'float32-storage':
+        fr = stg.Frame.from_data(fr.df, fr.dt, fr.fch1, g['asc'], np.zeros((g['tchans'], g['fchans']), dtype=np.float32), seed=c['sub'],
+                                 t_start=1.7e9)
+    elif variant == 'gap-in-time-axis':
+        T_ = g['tchans']
+        fr.ts = np.asarray(fr.ts) + np.where(np.arange(T_) >= T_ // 2 + (T_ % 2), c['gap'], 0.0)
     ts = np.array(fr.ts, dtype=float)
     fs = np.array(fr.fs, dtype=float)
     lo, hi = rsig.bounding_columns(fs, fr.df, fr.fchans, c['brange'])
